@@ -28,6 +28,7 @@
       rests on are pinned by translate/prompt_filter.py (Gen/PromptFilter.v). *)
 From NL Require Import Prompt.Model Prompt.Hist Prompt.Spec Prompt.Inv Prompt.Once Prompt.Erase Prompt.Deliver.
 From NL Require Import Prompt.System Prompt.SysProofs.
+From NL Require Prompt.FilterTie.       (* tie obligation: the code facts of the filter (translate/prompt_filter.py) *)
 Open Scope Z_scope.
 
 (** the command that closes prompt (t, p) is a sent command carrying exactly
